@@ -32,6 +32,17 @@ Theorem C04_command : forall tb cs c A rfn cmd i k v,
 Proof. exact command_member_frame. Qed.
 Print Assumptions C04_command.
 
+(* which keys are namespace-bearing is MEASURED on the compiled program (Gen/Probed.v) and held against Spec/NsFields.v by the kernel; with that, for the
+   program as compiled now and every flag set: a command member that is neither query-bearing nor a member of a MongoDB command that names a collection,
+   a database or a namespace is emitted as it is *)
+From Spec Require Import NsFields.
+From Proofs Require Import NsFieldsOK.
+Theorem C04_command_other_members : forall tb cs c A rfn cmd i k v,
+  nth_error cmd i = Some (k, v) -> key_in k cmd_zone_keys = false -> key_in k ns_sanctioned = false ->
+  nth_error (redact_command tb cs c A rfn cmd) i = Some (k, v).
+Proof. exact other_members_kept. Qed.
+Print Assumptions C04_command_other_members.
+
 (* lines of other components: with --redactIPs and --redactNamespaces off the tree is returned as is *)
 Theorem C04_other_components : forall tb cs c A t,
   ips c = false -> nss c = false -> (forall entry, t = JObj entry -> gate entry = false) ->
